@@ -175,17 +175,25 @@ func c16TextCSV(c statCase) (v vcase.Verdict) {
 	}
 	// CSV warnings by output line
 	csvWarnByLine := map[int][]string{}
+	csvWarnByCell := map[[2]int][]string{} // (output line, 0-based column) for single-letter references
+	csvWideRef := map[int]bool{}           // lines with a reference beyond column Z (not decoded here)
 	for _, l := range strings.Split(strings.TrimSpace(csvErr), "\n") {
 		if l == "" {
 			continue
 		}
-		m := regexp.MustCompile(`^[A-Z]+([0-9]+): (.*)$`).FindStringSubmatch(l)
+		m := regexp.MustCompile(`^([A-Z]+)([0-9]+): (.*)$`).FindStringSubmatch(l)
 		if m == nil {
 			fail("unexpected csv stderr line %q", l)
 			return
 		}
-		n, _ := strconv.Atoi(m[1])
-		csvWarnByLine[n] = append(csvWarnByLine[n], normWarning(m[2]))
+		n, _ := strconv.Atoi(m[2])
+		csvWarnByLine[n] = append(csvWarnByLine[n], normWarning(m[3]))
+		if len(m[1]) == 1 {
+			k := [2]int{n, int(m[1][0] - 'A')}
+			csvWarnByCell[k] = append(csvWarnByCell[k], normWarning(m[3]))
+		} else {
+			csvWideRef[n] = true
+		}
 	}
 	li := 0
 	next := func() (string, bool) {
@@ -297,6 +305,8 @@ func c16TextCSV(c statCase) (v vcase.Verdict) {
 			aligns[i] = colAlign{map[int]bool{}, map[int]bool{}, map[int]bool{}, map[int]bool{}}
 		}
 		textWarn := map[int][]int{} // row index (or -1 for geomean) -> superscript numbers
+		// (row index or -1, column, 0 = marks after the summary / 1 = marks after the delta) -> superscript numbers
+		textWarnCell := map[[3]int][]int{}
 		for ri, label := range t.Rows {
 			l, ok := next()
 			if !ok {
@@ -360,6 +370,12 @@ func c16TextCSV(c statCase) (v vcase.Verdict) {
 				}
 				for _, f := range strings.Fields(m[3] + " " + m[6]) {
 					textWarn[ri] = append(textWarn[ri], superToInt(f))
+				}
+				for _, f := range strings.Fields(m[3]) {
+					textWarnCell[[3]int{ri, col, 0}] = append(textWarnCell[[3]int{ri, col, 0}], superToInt(f))
+				}
+				for _, f := range strings.Fields(m[6]) {
+					textWarnCell[[3]int{ri, col, 1}] = append(textWarnCell[[3]int{ri, col, 1}], superToInt(f))
 				}
 				// alignment evidence (absolute rune offsets)
 				base := bars[col] + 1
@@ -442,6 +458,7 @@ func c16TextCSV(c statCase) (v vcase.Verdict) {
 				}
 				for _, f := range strings.Fields(m[3]) {
 					textWarn[-1] = append(textWarn[-1], superToInt(f))
+					textWarnCell[[3]int{-1, col, 0}] = append(textWarnCell[[3]int{-1, col, 0}], superToInt(f))
 				}
 			}
 		}
@@ -496,6 +513,47 @@ func c16TextCSV(c statCase) (v vcase.Verdict) {
 			if !used[n] {
 				fail("table %d: footnote %d listed but never referenced", ti, n)
 				return
+			}
+		}
+		// the same warnings on the same cells: the text marks a summary or a
+		// "vs base" entry, the CSV names the spreadsheet cell (summary: the
+		// column of the centre; comparison: the "vs base" column)
+		for ri := -1; ri < len(t.Rows); ri++ {
+			line := t.GeoLine
+			name := "geomean"
+			if ri >= 0 {
+				line, name = t.RowLine[ri], t.Rows[ri]
+			} else if len(t.Rows) <= 1 {
+				continue
+			}
+			if csvWideRef[line] {
+				v.Label("csv_reference_beyond_column_Z(not decoded)")
+				continue
+			}
+			for col := 0; col < ncols; col++ {
+				for kind := 0; kind < 2; kind++ {
+					if kind == 1 && col == 0 {
+						continue // the baseline column has no "vs base" entry
+					}
+					var tw []string
+					for _, n := range textWarnCell[[3]int{ri, col, kind}] {
+						tw = append(tw, normWarning(foot[n]))
+					}
+					cw := append([]string(nil), csvWarnByCell[[2]int{line, csvStartCol(col) + 2*kind}]...)
+					sort.Strings(tw)
+					sort.Strings(cw)
+					if fmt.Sprint(tw) != fmt.Sprint(cw) {
+						what := "summary"
+						if kind == 1 {
+							what = "comparison (vs base)"
+						}
+						fail("table %d row %q column %d %s: text footnotes %q, csv warnings for spreadsheet cell %c%d %q (all csv warnings of that line: %q)", ti, name, col, what, tw, 'A'+rune(csvStartCol(col)+2*kind), line, cw, csvWarnByLine[line])
+						return
+					}
+					if len(tw) > 0 {
+						v.Label("warning_cells_compared")
+					}
+				}
 			}
 		}
 		if len(t.Rows) == 1 {
